@@ -139,9 +139,6 @@ class CallMixin(object):
                 res.append(z3.BoolVal(False))
         return z3.Or(*res) if len(res) > 1 else res[0]
 
-    def term_isinstance(self, v, n, node):
-        raise Unsupported("isinstance on Term")
-
     # ------------------------------------------------------------ application
     def apply(self, fv, args, kwargs, node):
         if isinstance(fv.ty, TFun):
@@ -161,6 +158,8 @@ class CallMixin(object):
                 return self.call_lambda(p, args, node)
             if kind == "spec":
                 return self.spec_funcs[p[1]](self, args, node)
+            if kind == "termmeth":
+                return self.term_method(p[1], p[2], args, node)
             if kind == "lemmafn":
                 lf = self.spec.lemma_fns[p[1]]
                 return self.call_modular(lf, lf.module, lf.clsname, lf.fname, lf.src, args, kwargs, node)
@@ -283,7 +282,28 @@ class CallMixin(object):
         return self.float_other(v, node)
 
     def float_other(self, v, node):
+        if v.ty == TERM:
+            return self.term_to_float(v, node)
         raise Unsupported("float(%s)" % v.ty)
+
+    def bi_type(self, args, kwargs, node):
+        v = args[0]
+        if v.ty == TERM:
+            k = self.term_kind(v)
+            name = {"VNone": "NoneType", "VInt": "int", "VNamed": "Var", "CInt": "Constant", "CFloat": "Constant",
+                    "CStr": "Constant"}.get(k)
+            if name is None:
+                name = "Term"       # some Term subclass; only compared against int/NoneType/Constant/Var here
+            return Val(TType(), None, ("pytype", name))
+        name = {"Int": "int", "Float": "float", "Str": "str", "Bool": "bool", "None": "NoneType"}.get(v.ty.name)
+        if name is None:
+            if isinstance(v.ty, TList):
+                name = "list"
+            elif isinstance(v.ty, TTuple):
+                name = "tuple"
+            else:
+                raise Unsupported("type() of %s" % v.ty)
+        return Val(TType(), None, ("pytype", name))
 
     def bi_int(self, args, kwargs, node):
         v = args[0]
@@ -310,6 +330,8 @@ class CallMixin(object):
         return self.str_other(v, node)
 
     def str_other(self, v, node):
+        if v.ty == TERM:
+            return self.term_str(v, node)
         return self.ctx.fresh("str", STR)
 
     def bi_repr(self, args, kwargs, node):
@@ -492,9 +514,6 @@ class CallMixin(object):
             return self.str_method(obj, meth, args, kwargs, node)
         raise Unsupported("method %s of %s" % (meth, t))
 
-    def str_method(self, obj, meth, args, kwargs, node):
-        raise Unsupported("str.%s" % meth)
-
     # ------------------------------------------------------------ repo calls
     def all_fnspecs(self):
         out = list(self.spec.fns.values())
@@ -554,10 +573,13 @@ class CallMixin(object):
 
     def bind_params(self, fdef, args, kwargs, node):
         a = fdef.args
-        if a.vararg or a.kwarg:
-            raise Unsupported("*args/**kwargs in callee")
+        if a.vararg:
+            raise Unsupported("*args in callee")
         names = [x.arg for x in a.args]
         out = {}
+        if a.kwarg:
+            out[a.kwarg.arg] = Val(TType(), None, ("kwargs",))
+            kwargs = dict((k, v) for k, v in kwargs.items() if k in names or k in [x.arg for x in a.kwonlyargs])
         for n, v in zip(names, args):
             out[n] = v
         if len(args) > len(names):
